@@ -415,6 +415,7 @@ func loadKnownFindings(path string) []knownFinding {
 // ---- reporting ----------------------------------------------------------------------------------
 
 type oblJSON struct {
+	Cached  bool    `json:"from_query_cache,omitempty"`
 	Name    string  `json:"name"`
 	Kind    string  `json:"kind"`
 	Clause  string  `json:"clause,omitempty"`
@@ -433,7 +434,7 @@ func report(o checkOpts, w *World, reports []*funcReport, obls []*Obligation, un
 	var list []oblJSON
 	for _, ob := range obls {
 		solverSecs += ob.Res.Seconds
-		list = append(list, oblJSON{ob.Name, ob.Kind, ob.Clause, ob.Pos, ob.Res.Status, ob.Res.Solver, round3(ob.Res.Seconds)})
+		list = append(list, oblJSON{ob.Res.Cached, ob.Name, ob.Kind, ob.Clause, ob.Pos, ob.Res.Status, ob.Res.Solver, round3(ob.Res.Seconds)})
 		if ob.Res.Status == "unsat" {
 			discharged++
 			bySolver[strings.Fields(ob.Res.Solver + " ?")[0]]++
